@@ -34,16 +34,17 @@ type Env struct {
 
 // DefaultConf returns a configuration with generous timeouts and no limits.
 func DefaultConf() *config.Root {
+	addr := LoopbackAddr() // see netx.go: ports are per address, and 127.0.0.1 runs out of them
 	return &config.Root{
 		LogLevel:      "error",
 		MailboxNaming: config.LocalNaming,
 		SMTP: config.SMTP{
-			Addr: "127.0.0.1:0", Domain: "inbucket.test", MaxRecipients: 200,
+			Addr: addr, Domain: "inbucket.test", MaxRecipients: 200,
 			MaxMessageBytes: 10240000, DefaultAccept: true, DefaultStore: true,
 			Timeout: 10 * time.Minute,
 		},
-		POP3: config.POP3{Addr: "127.0.0.1:0", Domain: "inbucket.test", Timeout: 10 * time.Minute},
-		Web:  config.Web{Addr: "127.0.0.1:0", MonitorHistory: 30},
+		POP3: config.POP3{Addr: addr, Domain: "inbucket.test", Timeout: 10 * time.Minute},
+		Web:  config.Web{Addr: addr, MonitorHistory: 30},
 		Storage: config.Storage{Type: "memory", Params: map[string]string{},
 			RetentionPeriod: 0, RetentionSleep: 0, MailboxMsgCap: 0},
 	}
